@@ -278,6 +278,67 @@ func sealMain(args []string) {
 		}
 		total += w.n
 	}
+	// a vertex the node has verified but not admitted (its parent is unknown: it is parked), then copies that keep its
+	// hash and seal but are re-pointed at a known parent with other weight / amount / receiver: whatever the node
+	// remembers about the parked vertex, the copies are refused
+	for _, cs := range []bool{false, true} {
+		w3 := newSealWorld(enc)
+		parent := w3.honest(false, "unknown-parent")
+		v := w3.honest(cs, "parked")
+		v2, _ := accountant.NewVertex(v.Transaction, parent.Hash, parent.Hash, parent.Weight+1, w3.s)
+		if err := w3.ab.AddLeaf(context.Background(), &v2); err == nil {
+			fatal("the vertex with an unknown parent was admitted")
+		}
+		repoint := func(m *accountant.Vertex) { m.LeftParentHash, m.RightParentHash = w3.tip.Hash, w3.tip.Hash }
+		muts := []struct {
+			abs string
+			f   func(m *accountant.Vertex)
+		}{
+			{"left", repoint},
+			{"weight", func(m *accountant.Vertex) { repoint(m); m.Weight = w3.tip.Weight + 1 }},
+			{"cur", func(m *accountant.Vertex) { repoint(m); m.Transaction.Spice.Currency += 1000 }},
+			{"receiver.replace", func(m *accountant.Vertex) { repoint(m); m.Transaction.ReceiverAddress = w3.m.Address() }},
+			{"vtime", func(m *accountant.Vertex) { repoint(m); m.CreatedAt = m.CreatedAt.Add(time.Second) }},
+		}
+		for round := 0; round < 2; round++ {
+			for _, mu := range muts {
+				m := v2
+				mu.f(&m)
+				w3.offer(mu.abs, "parked-twin", cs, v2, m)
+			}
+		}
+		total += w3.n
+		w3.ab.VerifClose()
+	}
+	// a countersigned transaction that a wallet addressed to itself: the receiver signature is still a signature that
+	// has to verify
+	{
+		w4 := newSealWorld(enc)
+		t, err := transaction.New("to myself", spice.New(1, 0), []byte("note"), w4.i.Address(), w4.i)
+		if err != nil {
+			fatal("%v", err)
+		}
+		if _, err := t.Sign(w4.i, wallet.NewVerifier()); err != nil {
+			fatal("countersign: %v", err)
+		}
+		v, _ := accountant.NewVertex(t, w4.tip.Hash, w4.tip.Hash, w4.tip.Weight+1, w4.s)
+		off := func(kind string, f func(m *accountant.Vertex)) {
+			m := v
+			m.Transaction.ReceiverSignature = append([]byte{}, v.Transaction.ReceiverSignature...)
+			f(&m)
+			w4.offer("rsig.replace", kind, true, v, m)
+		}
+		for b := 0; b < 512; b += 3 {
+			b := b
+			off("bit-self", func(m *accountant.Vertex) {
+				m.Transaction.ReceiverSignature = flipBit(v.Transaction.ReceiverSignature, b)
+			})
+		}
+		off("other-self", func(m *accountant.Vertex) { m.Transaction.ReceiverSignature = signDigest(w4.m, v.Transaction.Hash) })
+		off("short-self", func(m *accountant.Vertex) { m.Transaction.ReceiverSignature = []byte{1} })
+		total += w4.n
+		w4.ab.VerifClose()
+	}
 	// the two design-level ways around the signatures, each on a fresh ledger because the copy may be admitted
 	for _, cs := range []bool{false, true} {
 		for _, abs := range []string{"boundary.subject>data", "boundary.data>subject", "rsig.strip"} {
